@@ -144,7 +144,7 @@ var keyOrderTable = []struct{ Pkg, Recv, Name, Why string }{
 	{"pkg/datastore/target/netconf", "", "pathElem2XPath", "xpath filter"},
 }
 
-var sortCalls = []string{"sort.Strings", "slices.Sort", "sort.Slice", "slices.SortFunc", "sort.SliceStable"}
+var sortCalls = []string{"sort.Strings", "slices.Sort", "sort.Slice", "slices.SortFunc", "sort.SliceStable", "slices.SortStableFunc", "slices.Sorted", "slices.SortedFunc", "slices.SortedStableFunc"}
 
 func c11(w *core.World, r *core.Report) {
 	ruleSEP(w, r)
@@ -170,6 +170,9 @@ func c11(w *core.World, r *core.Report) {
 				continue
 			}
 			sorted := s.Common().Args[0]
+			if strings.HasPrefix(core.CalleeKey(s), "slices.Sorted") {
+				sorted = s.Value() // slices.Sorted(maps.Keys(m)) hands back the sorted slice
+			}
 			// a later positional use of the same slice
 			for _, b := range core.Blocks(f) {
 				for _, in := range b.Instrs {
